@@ -236,6 +236,7 @@ fn fclass(x: f64) -> &'static str {
 	}
 }
 
+const STREAM_CLASSES: [&str; 7] = ["flat-stretches", "zero-volume", "grid", "trends", "long-ramp", "trend-ripple", "single-price-bars"];
 fn candle_streams(seed: u64) -> Vec<Vec<Candle>> {
 	vec![gen::candles(1, seed, 300, 10), gen::candles(2, seed ^ 1, 300, 10), gen::candles(3, seed ^ 2, 300, 10), gen::candles(4, seed ^ 3, 300, 10), gen::candles(7, seed ^ 4, 700, 10), gen::candles(8, seed ^ 5, 900, 10), gen::candles(9, seed ^ 6, 300, 10)]
 }
@@ -274,7 +275,7 @@ fn drive_indicator(d: &reg::IDesc, base: &dyn DC, obj: &Map<String, Value>, desc
 				});
 				r.eval(st.len() as u64);
 				if let Err(p) = res {
-					r.violate(&format!("C10|{}::next|panic:{}@{}|{desc}|profile={PROFILE}", d.name, p.class(), p.file()), &format!("an initialised indicator panicked on valid candles: {} ({})", p.msg, p.loc), || json!({"case": case("stream"), "stream": si}));
+					r.violate(&format!("C10|{}::next|panic:{}@{}|profile={PROFILE}", d.name, p.class(), p.file()), &format!("an initialised indicator panicked on valid candles: {} ({})", p.msg, p.loc), || json!({"case": case("stream"), "stream": si, "config_class": desc, "stream_class": STREAM_CLASSES.get(si)}));
 					break;
 				}
 			}
@@ -382,6 +383,39 @@ fn indicators(ctx: &Ctx, r: &mut Report) {
 					}
 				}
 				_ => {}
+			}
+		}
+		// systematic: every MA kind in all MA fields (default periods) x every source
+		let has_source = obj.iter().any(|(_, c)| field_kind(c) == FieldKind::Source);
+		let has_ma = obj.iter().any(|(_, c)| field_kind(c) == FieldKind::Ma);
+		if has_ma || has_source {
+			let no_src = [""];
+			let srcs: &[&str] = if has_source { &SOURCE_NAMES } else { &no_src };
+			let no_ma = [""];
+			let keys: &[&str] = if has_ma { &MA_KEYS } else { &no_ma };
+			for key in keys {
+				for src in srcs {
+					k += 1;
+					if !ctx.mine(k) {
+						continue;
+					}
+					let mut o = obj.clone();
+					for (n2, c2) in obj.iter() {
+						match field_kind(c2) {
+							FieldKind::Ma if !key.is_empty() => {
+								let pp = c2.as_object().and_then(|m| m.values().next()).and_then(Value::as_u64).unwrap_or(3);
+								let mut mm = Map::new();
+								mm.insert(key.to_string(), json!(pp));
+								o.insert(n2.clone(), Value::Object(mm));
+							}
+							FieldKind::Source if !src.is_empty() => {
+								o.insert(n2.clone(), json!(src));
+							}
+							_ => {}
+						}
+					}
+					drive_indicator(&d, base.as_ref(), &o, &format!("kind-x-source:{key}:{src}"), ctx.seed ^ k, r);
+				}
 			}
 		}
 		// random joint configurations
